@@ -228,6 +228,7 @@ async fn run(cases: &str, out: &str, workdir: &str, args: &[String]) {
             rows_check(&engine, &canon, &cid, &pid, 0, &mut w);
         }
         let mut point = 0;
+        let mut held = false;
         for op in v["ops"].as_array().unwrap() {
             point += 1;
             if restart {
@@ -247,6 +248,10 @@ async fn run(cases: &str, out: &str, workdir: &str, args: &[String]) {
             if let Some(adv) = op.get("tick") {
                 acts::verif::clock_advance(adv.as_i64().unwrap());
                 engine.verif_tick();
+                if held {
+                    held = false;
+                    acts::verif::gate_open();
+                }
                 quiesce().await;
                 canon.flush(&mut w, &cid, &pid, &mid);
                 writeln!(w, "case {cid}: Q").unwrap();
@@ -256,8 +261,13 @@ async fn run(cases: &str, out: &str, workdir: &str, args: &[String]) {
                 let opts: Vars = op["o"].clone().into();
                 let a = op["a"].as_str().unwrap();
                 let ev: acts::Action = serde_json::from_value(serde_json::json!({"pid": pid, "tid": tid, "event": a, "options": {}})).unwrap();
-                if gate {
+                // `hold`: the action is issued while the scheduler is held; nothing runs until an operation without it
+                let hold = op.get("hold").and_then(|x| x.as_bool()).unwrap_or(false);
+                if gate || (hold && !held) {
                     acts::verif::gate_close();
+                }
+                if hold {
+                    held = true;
                 }
                 let r = std::panic::catch_unwind(std::panic::AssertUnwindSafe(|| ex.act().do_action(&pid, &tid, ev.event.clone(), &opts)));
                 // the action's own synchronous effects come first in the log, then its result, then the drained queue
@@ -266,7 +276,12 @@ async fn run(cases: &str, out: &str, workdir: &str, args: &[String]) {
                     Ok(r) => writeln!(w, "case {cid}: A {}", if r.is_ok() { "ok" } else { "err" }).unwrap(),
                     Err(_) => writeln!(w, "case {cid}: A panic").unwrap(),
                 }
-                if gate {
+                if hold {
+                    point -= 1; // not a quiescent point
+                    continue;
+                }
+                if gate || held {
+                    held = false;
                     acts::verif::gate_open();
                 }
                 quiesce().await;
@@ -275,6 +290,16 @@ async fn run(cases: &str, out: &str, workdir: &str, args: &[String]) {
             }
             if rows {
                 rows_check(&engine, &canon, &cid, &pid, point, &mut w);
+            }
+        }
+        if held {
+            // the history ended with the scheduler held: let it run
+            acts::verif::gate_open();
+            quiesce().await;
+            canon.flush(&mut w, &cid, &pid, &mid);
+            writeln!(w, "case {cid}: Q").unwrap();
+            if rows {
+                rows_check(&engine, &canon, &cid, &pid, point + 1, &mut w);
             }
         }
         if let Some(live) = engine.verif_live(&pid) {
